@@ -741,3 +741,80 @@ class ExtRuleReference(Contract):
 
     def frame_ok(self, I, inp, obj, name):
         return False
+
+
+@register
+class FieldNormalization(Contract):
+    """convert_correlation_search_field_normalization_expression: for THESE aliases and THIS rule reference - one rendering of the
+    normalisation template per alias entry that names the reference (alias name, field of that entry), in alias order, joined; no aliases:
+    nothing; templates missing: NotImplementedError. A call for another correlation rule's aliases on the same backend, for the same
+    referenced rule, does not influence the result"""
+    id = "C10.TextQueryBackend.convert_correlation_search_field_normalization_expression"
+    target = f"{CB}:TextQueryBackend.convert_correlation_search_field_normalization_expression"
+    props = ("C10", "C15")
+    cases = tuple((n, tm, hist) for n in (0, 1, 2) for tm in (True, False) for hist in (False, True))
+
+    def mk_aliases(self, I, n, tag):
+        idx = I.E.index
+        RR = idx.lookup("sigma.correlations:SigmaRuleReference")
+        want = []
+        als = []
+        for i in range(n):
+            fa, fb = I.fresh(f"{tag}field{i}_a", "str"), I.fresh(f"{tag}field{i}_b", "str")
+            name = I.fresh(f"{tag}alias{i}", "str")
+            als.append(SObj(idx.lookup("sigma.correlations:SigmaCorrelationFieldAlias"), {"alias": name, "mapping": {self.ref_a: fa, self.ref_b: fb}}, lazy=True))
+            want.append((name, fa))
+        aliases = SObj(idx.lookup("sigma.correlations:SigmaCorrelationFieldAliases"), {"aliases": {f"k{i}": a for i, a in enumerate(als)}}, lazy=True)
+        aliases.fields["__len__"] = NativeFn("__len__", lambda I2, a, k: n)
+        aliases.fields["__iter__"] = NativeFn("__iter__", lambda I2, a, k: list(als))
+        return aliases, want
+
+    def args(self, I, case):
+        n, tm, hist = case
+        idx = I.E.index
+        RR = idx.lookup("sigma.correlations:SigmaRuleReference")
+        self.ref_a = SObj(RR, {"reference": "rule_a"}, lazy=True)
+        self.ref_b = SObj(RR, {"reference": "rule_b"}, lazy=True)
+        calls = []
+
+        def fmt(I2, a, k):
+            out = I2.fresh("normalisation", "str")
+            calls.append((dict(k), out))
+            return out
+        aliases, want = self.mk_aliases(I, n, "")
+        me = SObj(idx.lookup(f"{CB}:TextQueryBackend"), {"correlation_search_field_normalization_expression": SObj("Template", {"format": NativeFn("format", fmt)}) if tm else None,
+                                                       "correlation_search_field_normalization_expression_joiner": I.fresh("joiner", "str")}, lazy=True)
+        return {"self": me, "args": [aliases, self.ref_a], "calls": calls, "want": want, "case": case}
+
+    def before(self, I, inp):
+        n, tm, hist = inp["case"]
+        if hist and tm:
+            other, _ = self.mk_aliases(I, 1, "earlier_")
+            I.call_function(I.E.index.lookup(self.target), inp["self"], [other, self.ref_a], {})
+            del inp["calls"][:]
+
+    def post(self, I, inp, r):
+        n, tm, hist = inp["case"]
+        c = I.ctx
+        if n == 0:
+            c.require(ops.py_eq(I, r, "") is True or r == "", "no aliases: nothing")
+            return
+        c.require(tm, "without templates the normalisation cannot be rendered")
+        calls = inp["calls"]
+        c.require(len(calls) == n and all(set(k) == {"alias", "field"} and k["alias"] is w[0] and k["field"] is w[1] for (k, _), w in zip(calls, inp["want"])),
+                  "the template is rendered once per alias, with the alias name and the field THESE aliases give for THIS reference, in order")
+        if len(calls) == n:
+            j = inp["self"].fields["correlation_search_field_normalization_expression_joiner"].t
+            parts = []
+            for i, (_, out) in enumerate(calls):
+                if i:
+                    parts.append(j)
+                parts.append(out.t)
+            c.require(isinstance(r, Sym) and r.kind == "str" and r.t == (z3.Concat(*parts) if len(parts) > 1 else parts[0]), "the renderings joined by the joiner")
+
+    def raises(self, I, inp, exc):
+        n, tm, hist = inp["case"]
+        I.ctx.require(n > 0 and not tm and exc_is(I, exc, "NotImplementedError"), f"NotImplementedError exactly when aliases exist and a template is missing (got {exc_name(exc)})", kind="SAFE")
+
+    def frame_ok(self, I, inp, obj, name):
+        return False
